@@ -276,6 +276,26 @@ func checkCancelOrder(p *Prog, r *Report, fn *ssa.Function, rule, rule3 string) 
 		if !invokes {
 			continue
 		}
+		// a literal that fn itself defers (`defer func() { cancel() }()`) is the function-level deferred
+		// cancel in another spelling: it runs when fn returns, which R1a orders after wg.Wait()
+		deferredByFn, startedAsGo := false, false
+		for _, b := range fn.Blocks {
+			for _, in := range b.Instrs {
+				switch t := in.(type) {
+				case *ssa.Defer:
+					if StaticCallee(&t.Call) == g {
+						deferredByFn = true
+					}
+				case *ssa.Go:
+					if StaticCallee(&t.Call) == g {
+						startedAsGo = true
+					}
+				}
+			}
+		}
+		if deferredByFn && !startedAsGo {
+			continue
+		}
 		n++
 		gp := PathsInl(g)
 		if len(gp.Headers) > 0 {
